@@ -15,6 +15,8 @@ import copy
 import os
 
 from mon import contracts as ct
+import pandas as pd
+
 from mon import core
 from mon import refmodel as rm
 from mon.fnlib import basic as fl
@@ -169,6 +171,22 @@ def run_case(case: dict) -> dict:
                     viols.append(core.viol("frozen value changed with state/time", None, name=k, at0=float(a0[k]), later=float(got[k]), spec=spec))
             # sensitivity: would a recomputation at (st,t) have given something else?
             sensitive = sensitive or _recompute_differs(ref, st, t)
+            # the supplied state is a row the model handed out (variables together with the derived quantities and rates that
+            # were computed from them), with a variable edited and another time asked for: everything that is not frozen is
+            # recomputed from the variables supplied (the contracts compare with the reference at those variables)
+            pnames = set(model.get_parameter_names()) | set(frozen_names) | {"time"}
+            row = {k: float(v) for k, v in dict(got).items() if k not in pnames}
+            if len(row) > len(st):
+                v_edit = rng.choice(sorted(st))
+                row[v_edit] = round(row[v_edit] * rng.choice([0.5, 2.0, 3.0]) + 0.125, 4)
+                t2 = round(t + rng.uniform(0.5, 2.0), 3)
+                model.get_args(row, t2)
+                model.get_right_hand_side(row, t2)
+                model.get_fluxes(row, t2)
+                frame = pd.DataFrame([row, {**row, v_edit: row[v_edit] + 0.5}], index=[t2, t2 + 1.0])
+                model.get_args_time_course(frame)
+                model.get_fluxes_time_course(frame)
+                counters["rows handed out by the model supplied again with a variable edited"] = counters.get("rows handed out by the model supplied again with a variable edited", 0) + 1
         # the declared initial state at a later time (implicit, and as the very object the model handed out): what depends
         # on time is recomputed, what is frozen stays
         for t_late in (round(rng.uniform(0.5, 4.0), 3), 40.0):
